@@ -205,3 +205,41 @@ def synchronous_withdrawals(m, f, cx, victim):
         if key in reach and key in m.funcs and m.funcs[key].name not in ("cmb_process_stop",):
             out.append(c)
     return out
+
+
+def as_ternary(cx, f, node):
+    """If `node` is a local that receives its value in exactly two places under complementary conditions (an if / else,
+    e.g. the result variable of an inlined helper), the canonical text of the equivalent conditional expression
+    '((c) ? v1 : v2)'; otherwise the node's canonical text."""
+    from ..astutil import strip, kids, walk
+    from .. import inv
+    n0 = strip(node, casts=True)
+    for _ in range(4):
+        if n0["kind"] != "DeclRefExpr" or n0["ref"].get("kind") != "VarDecl":
+            return cx.canon(n0)
+        vid = n0["ref"]["id"]
+        defs = []
+        for d_ in walk(f.body):
+            if d_["kind"] == "VarDecl" and d_["id"] == vid and kids(d_):
+                defs.append((kids(d_)[0], d_))
+        for l_, r_, k_, nd in inv.stores(f):
+            l0 = strip(l_, casts=True)
+            if l0["kind"] == "DeclRefExpr" and l0["ref"]["id"] == vid and r_ is not None and k_ == "=":
+                defs.append((r_, nd))
+        if len(defs) == 1:
+            n0 = strip(defs[0][0], casts=True)
+            if n0["kind"] == "ConditionalOperator":
+                return cx.canon(n0)
+            continue
+        if len(defs) != 2:
+            return cx.canon(node)
+        (v1, n1), (v2, n2) = defs
+        c1, c2 = inv.dominating_conditions(cx, f, n1), inv.dominating_conditions(cx, f, n2)
+        only1 = [c for c in c1 if c not in c2]
+        only2 = [c for c in c2 if c not in c1]
+        if len(only1) == 1 and len(only2) == 1 and (only1[0] == "!" + only2[0] or only2[0] == "!" + only1[0]):
+            if only1[0].startswith("!"):
+                only1, only2, v1, v2 = only2, only1, v2, v1
+            return "(%s ? %s : %s)" % (only1[0], cx.canon(v1), cx.canon(v2))
+        return cx.canon(node)
+    return cx.canon(node)
